@@ -53,7 +53,7 @@ func evalC19e(c c19eCase) (f *Failure, nontrivial bool) {
 			return nil
 		})
 		if c.LatencyMs > 0 {
-			r.Net.OnDial = func(l *memnetLink) error { l.SetLatency(time.Duration(c.LatencyMs) * time.Millisecond); return nil }
+			r.Net.SetOnDial(func(l *memnetLink) error { l.SetLatency(time.Duration(c.LatencyMs) * time.Millisecond); return nil })
 		}
 		cli := r.manager(c01Transports(c.Transport), nil).Socket("/", nil)
 		cli.OnEvent("e", func(tok int) { mu.Lock(); arrived[tok] = time.Since(start); mu.Unlock() })
